@@ -328,11 +328,17 @@ class Run:
             self.on_op_exception(exc)
 
     def on_op_exception(self, exc):
+        if isinstance(exc, Abort):
+            raise exc           # a nested operation already gave up: pass it on unchanged (never re-wrap)
+        if isinstance(exc, RecursionError):
+            # a chain of callbacks each issuing a further operation, deeper than the interpreter allows
+            self.flags['reaction_chain_hit_the_recursion_limit'] += 1
+            raise Abort('recursion limit')
         if 'lifecycle' in self.checks and raised_in_repo(exc):
             self.viol('operation_raised', exception=repr(exc))
         self.flags['op_raised'] += 1
         self.flags['op_raised:%s:%s' % (self.ops[self.step_ix][0], type(exc).__name__)] += 1
-        raise Abort(repr(exc))
+        raise Abort(repr(exc)[:300])
 
     # ---- owed callbacks -------------------------------------------------------------------------------
     def owe(self, group):
@@ -839,6 +845,11 @@ class Run:
             raise Abort('process budget')
         except PropertyViolation:
             raise
+        except Abort:
+            raise
+        except RecursionError:
+            self.flags['reaction_chain_hit_the_recursion_limit'] += 1
+            raise Abort('recursion limit')
         except Exception as exc:
             if exc is getattr(self, 'user_error', None):
                 return self.after_user_failure()
@@ -1007,6 +1018,11 @@ class Run:
             raise Abort('enable budget (C04)')
         except PropertyViolation:
             raise
+        except Abort:
+            raise
+        except RecursionError:
+            self.flags['reaction_chain_hit_the_recursion_limit'] += 1
+            raise Abort('recursion limit')
         except Exception as exc:
             if 'lifecycle' in self.checks:
                 self.viol('enabling_raised', exception=repr(exc), queued=self.fmt_groups(self.queue))
